@@ -513,7 +513,9 @@ def expr_closure_text(fi, e, depth=0):
       decides="flattened / update / construction from records never drop or skip a record")
 def c09_r1(ctx: Ctx, rule):
     res = RuleResult()
-    targets = [DOC + ".flattened", BUNDLE + ".update", DOC + ".update", BUNDLE + ".__init__", DOC + ".unified", GR + ".graph_to_prov"]
+    targets = []
+    for q0 in [DOC + ".flattened", BUNDLE + ".update", DOC + ".update", BUNDLE + ".__init__", DOC + ".unified", GR + ".graph_to_prov"]:
+        targets += [x for x in ctx.helper_closure(q0, depth=1) if x not in targets and not x.endswith((".add_record", ".new_record", "._add_record", ".add_bundle", ".bundle", "._unified_records", ".unified", ".update"))or x == q0 and x not in targets]
     for q in targets:
         fi = ctx.fn(q)
         g = get_cfg(ctx, q)
@@ -586,13 +588,12 @@ def c09_r2(ctx: Ctx, rule):
     ctor = [c2 for c2 in calls_in(nf.node) if isinstance(c2.func, ast.Subscript)]
     if len(ctor) != 1 or len(ctor[0].args) < 3:
         raise AnalysisError("new_record: constructor call not found")
-    lst = norm(ctor[0].args[2])
+    closure_txt = expr_closure_text(nf, ctor[0].args[2])
     feeds = {}
-    for n in walk_function(nf.node):
-        if isinstance(n, ast.Call) and call_name(n) in ("extend", "append") and norm(n.func.value) == lst:
-            for p in nf.params[3:5]:
-                if any(isinstance(x, ast.Name) and x.id == p for x in ast.walk(n)):
-                    feeds[p] = True
+    import re as _re
+    for p in nf.params[3:5]:
+        if _re.search(r"(?<![A-Za-z0-9_])%s(?![A-Za-z0-9_])" % _re.escape(p), closure_txt.replace("other_" + p, "") if p == "attributes" else closure_txt):
+            feeds[p] = True
     for p in nf.params[3:5]:
         res.ob("new_record passes `%s` into the record's attribute list: %s" % (p, feeds.get(p, False)))
         if not feeds.get(p):
